@@ -740,8 +740,10 @@ func SuccessOf(src string, in map[string]any) map[string]any {
 	a := in["a"]
 	if isWild(a) || isChoice(a) {
 		out["a"] = Wild{}
+		out["its"] = Wild{}
 	} else {
 		out["a"] = a.(int64)*2 + 1
+		out["its"] = []any{map[string]any{"v": a.(int64)}, map[string]any{"v": a.(int64) + 1}}
 	}
 	s := in["s"]
 	if isWild(s) || isWild(in["o"]) || isChoice(s) {
@@ -1063,6 +1065,20 @@ func (f *Facts) naturalLoop(s *ir.Step, sf *StepFacts) {
 			f.fail(s.ID + ".items: " + why)
 		}
 		sf.Why = "items: " + why
+		return
+	}
+	if isWild(it.V) || isChoice(it.V) {
+		// the items are not a single known list: the loop runs, its result is not enumerated
+		sf.Started = true
+		sf.Par = par
+		sf.Out["outputs.success"] = map[string]any{"data": Wild{}}
+		sf.Maybe = map[string]bool{"outputs.success": true}
+		return
+	}
+	if _, absent := it.V.(Absent); absent {
+		// an optional items expression without a value: the required input of the stage is missing
+		f.fail(s.ID + ".items: absent;")
+		sf.Why = "items: absent"
 		return
 	}
 	items, _ := it.V.([]any)
